@@ -394,6 +394,8 @@ Definition handle_cache_hit (q : request) (stored : stored_entry) (url_key : byt
     end).
 
 Definition handle_unrecognized_method (q : request) (url_key : bytes) : prog outcome :=
+  (* only-if-cached holds for every request: one the cache never answers from its store gets the 504, not the origin *)
+  if req_only_if_cached (parse_cc (q_hdr q)) then Ret (OResp response_504) else
   Origin q (fun rep =>
     match rep with
     | RErr => Ret OErr
